@@ -27,7 +27,7 @@ CHECKS = {
             "covers": {"VerifC13Snapshot": ["empty", "chain", "replicated", "saved", "loaded"]},
         }, {
             "pkg": BS, "funcs": ["VerifC13Snapshot"],
-            "params": {"quick": {"T": 2, "SIZES": 1048576}, "thorough": {"T": 3, "SIZES": 1048576}},
+            "cross_solvers": ["cvc5", "z3-new"], "params": {"quick": {"T": 2, "SIZES": 1048576}, "thorough": {"T": 3, "SIZES": 1048576}},
             "covers": {"VerifC13Snapshot": ["saved", "loaded", "save-refused"]},
         }, {
             "pkg": BS, "funcs": ["VerifC13Concurrent"],
@@ -120,9 +120,9 @@ CHECKS = {
         "groups": [{
             "pkg": BS, "funcs": ["VerifC03Forged", "VerifC03LocalWrite"],
             "covers": {"VerifC03Forged": ["as-head", "as-ancestor", "as-foreign-ref", "id-swap"], "VerifC03LocalWrite": ["allowed", "denied"]},
-        }, {"pkg": ACI, "funcs": ["VerifC03CanAppend"], "covers": {"VerifC03CanAppend": ["decided"]}},
-           {"pkg": ACS, "funcs": ["VerifC03CanAppend"], "covers": {"VerifC03CanAppend": ["decided"]}},
-           {"pkg": ACO, "funcs": ["VerifC03CanAppend"], "covers": {"VerifC03CanAppend": ["decided"]}},
+        }, {"cross_solvers": ["cvc5", "z3-new"], "pkg": ACI, "funcs": ["VerifC03CanAppend"], "covers": {"VerifC03CanAppend": ["decided"]}},
+           {"cross_solvers": ["cvc5", "z3-new"], "pkg": ACS, "funcs": ["VerifC03CanAppend"], "covers": {"VerifC03CanAppend": ["decided"]}},
+           {"cross_solvers": ["cvc5", "z3-new"], "pkg": ACO, "funcs": ["VerifC03CanAppend"], "covers": {"VerifC03CanAppend": ["decided"]}},
            {"pkg": ODB, "funcs": ["VerifC03Instance"],
             "covers": {"VerifC03Instance": ["created", "via-sync", "via-direct-channel", "via-topic", "delivered", "local-write-refused"]}}],
         "assumptions": [
@@ -136,7 +136,7 @@ CHECKS = {
     },
     "C04": {
         "groups": [{
-            "pkg": BS, "funcs": ["VerifC04Tampered"],
+            "cross_solvers": ["cvc5", "z3-new"], "pkg": BS, "funcs": ["VerifC04Tampered"],
             "covers": {"VerifC04Tampered": ["as-head", "as-ancestor", "codec-alias"]},
         }, {
             "pkg": BS, "funcs": ["VerifC04ForeignChain"],
@@ -320,7 +320,7 @@ CHECKS = {
     },
     "C20": {
         "groups": [{
-            "pkg": PSC, "funcs": ["VerifC20PeersDiff", "VerifC20SelfFilter"],
+            "cross_solvers": ["cvc5", "z3-new"], "pkg": PSC, "funcs": ["VerifC20PeersDiff", "VerifC20SelfFilter"],
             "params": {"quick": {"P": 3, "S": 3, "M": 3}, "thorough": {"P": 3, "S": 4, "M": 5}},
             "max_paths": {"quick": 60000, "thorough": 400000},
             "covers": {"VerifC20PeersDiff": ["diffed"], "VerifC20SelfFilter": ["drained"]},
@@ -329,12 +329,12 @@ CHECKS = {
             "params": {"quick": {"L": 2, "M": 3, "P": 1}, "thorough": {"L": 3, "M": 5, "P": 2}},
             "covers": {"VerifC20ChannelID": ["symmetric", "distinct"], "VerifC20Monitor": ["monitored"], "VerifC20ConnectRace": ["connected"]},
         }, {
-            "pkg": DC, "funcs": ["VerifC20FrameRoundTrip", "VerifC12RawFrame"],
+            "cross_solvers": ["cvc5", "z3-new"], "pkg": DC, "funcs": ["VerifC20FrameRoundTrip", "VerifC12RawFrame"],
             "params": {"quick": {"L": 3, "B": 11}, "thorough": {"L": 6, "B": 12}},
             "flags": {"alloc-bound": 16},
             "covers": {"VerifC20FrameRoundTrip": ["received"], "VerifC12RawFrame": ["handled"]},
         }, {
-            "pkg": RAW, "funcs": ["VerifC20RawPeers", "VerifC20RawMessages", "VerifC20RawTopics"],
+            "cross_solvers": ["cvc5", "z3-new"], "pkg": RAW, "funcs": ["VerifC20RawPeers", "VerifC20RawMessages", "VerifC20RawTopics"],
             "params": {"quick": {"E": 3, "P": 2, "M": 3}, "thorough": {"E": 5, "P": 3, "M": 5}},
             "max_paths": {"quick": 60000, "thorough": 400000},
             "covers": {"VerifC20RawPeers": ["watched"], "VerifC20RawMessages": ["drained"], "VerifC20RawTopics": ["subscribed"]},
@@ -355,7 +355,7 @@ CHECKS = {
     },
     "C12": {
         "groups": [{
-            "pkg": DC, "funcs": ["VerifC12RawFrame"],
+            "cross_solvers": ["cvc5", "z3-new"], "pkg": DC, "funcs": ["VerifC12RawFrame"],
             "params": {"quick": {"B": 11}, "thorough": {"B": 12}},
             "flags": {"alloc-bound": 16},
             "covers": {"VerifC12RawFrame": ["handled"]},
@@ -382,7 +382,7 @@ CHECKS = {
     },
     "C06": {
         "groups": [{
-            "pkg": KV, "funcs": ["VerifC06Replay"],
+            "cross_solvers": ["cvc5", "z3-new"], "pkg": KV, "funcs": ["VerifC06Replay"],
             "params": {"quick": {"N": 3}, "thorough": {"N": 4}},
             "max_paths": {"quick": 60000, "thorough": 400000},
             "timeout": {"quick": "10m", "thorough": "40m"},
@@ -404,7 +404,7 @@ CHECKS = {
     },
     "C07": {
         "groups": [{
-            "pkg": DOC, "funcs": ["VerifC07Replay", "VerifC07Get", "VerifC07Query", "VerifC07Delete"],
+            "cross_solvers": ["cvc5", "z3-new"], "pkg": DOC, "funcs": ["VerifC07Replay", "VerifC07Get", "VerifC07Query", "VerifC07Delete"],
             "params": {"quick": {"N": 2, "M": 2, "K": 1}, "thorough": {"N": 3, "M": 3, "K": 2}},
             "max_paths": {"quick": 60000, "thorough": 400000},
             "timeout": {"quick": "10m", "thorough": "40m"},
@@ -421,7 +421,7 @@ CHECKS = {
     },
     "C08": {
         "groups": [{
-            "pkg": EL, "funcs": ["VerifC08Window"],
+            "cross_solvers": ["cvc5", "z3-new"], "pkg": EL, "funcs": ["VerifC08Window"],
             "params": {"quick": {"N": 4}, "thorough": {"N": 6}},
             "covers": {"VerifC08Window": ["window-computed"]},
         }, {
@@ -441,7 +441,7 @@ CHECKS = {
     },
     "C19": {
         "groups": [{
-            "pkg": BS,
+            "cross_solvers": ["cvc5", "z3-new"], "pkg": BS,
             "funcs": ["VerifC19Step", "VerifC19Rest", "VerifC19History"],
             "params": {"quick": {"STEPS": 3}, "thorough": {"STEPS": 5}},
             "max_paths": {"quick": 20000, "thorough": 200000},
